@@ -50,14 +50,14 @@ def updatePossWith (rmin rmax : Int) (hmin hmax : Int) (grEq less : Int → CInd
       | some t =>
         (match grEq t with
          | .ok p => (p, 0)
-         | _ => (0, 1))
+         | _ => (Generated.C02.updatePossLowerErrPos, 1))     -- regenerated: 0
       | none => (0, 0)
     let (mx, k2) :=
       match al with
       | some t =>
         (match less t with
          | .ok p => (p, 0)
-         | _ => (maxU32, 1))
+         | _ => (Generated.C02.updatePossUpperErrPos, 1))     -- regenerated: MaxUint32
       | none => (maxU32, 0)
     ({ st with minPos := mn, maxPos := mx }, k1 + k2)
 
